@@ -83,6 +83,14 @@ def chain_worker(case):
                 out.append(['create', 'new extender of the re-created base', desc, list(b[:1]) if b[0] == 'ok' else list(b)])
                 if b[0] == 'ok':
                     out.append(['parse2', 'new extender of the re-created base', 2, parse_all(b[1], case['runs2'][1])])
+                # the unchanged description of level 2 (same text as before) compiled again: it now extends the NEW base
+                desc = module_desc(chain[1], name(2), name(1), case['ig'], 2)
+                b = create(desc, name(2))
+                out.append(['create', 'level 2 again (unchanged description) on the re-created base', desc,
+                            list(b[:1]) if b[0] == 'ok' else list(b)])
+                if b[0] == 'ok':
+                    out.append(['parse3', 'level 2 compiled again (unchanged description) on the re-created base', 2,
+                                parse_all(b[1], case['runs3'])])
     finally:
         for nm in created:
             sys.modules.pop(nm, None)
@@ -130,7 +138,8 @@ def run(chk):
     for i, c in enumerate(cases):
         runs = [[[x[0], x[1], x[2]] for x in top] for top in c['runs']]
         runs2 = [[[x[0], x[1], x[2]] for x in top] for top in c['runs2']]
-        wcases.append({'id': i, 'chain': c['chain'], 'chain2': c['chain2'], 'ig': c['ig'], 'runs': runs, 'runs2': runs2,
+        runs3 = [[x[0], x[1], x[2]] for x in c['runs3']]
+        wcases.append({'id': i, 'chain': c['chain'], 'chain2': c['chain2'], 'ig': c['ig'], 'runs': runs, 'runs2': runs2, 'runs3': runs3,
                        'dotted': (i % 7 == 3)})
     recs = engine.run_real(wcases, fn='chain_worker', batch=2)
     for c, w in zip(cases, wcases):
@@ -150,8 +159,12 @@ def run(chk):
                                   {'step': item[1], 'desc': item[2], 'build': item[3], 'dotted': w['dotted']})
                 continue
             kind, when, top, obs = item
-            exps = (c['runs'] if kind == 'parse' else c['runs2'])[top - 1]
-            chain_now = c['chain'] if kind == 'parse' else c['chain2']
+            if kind == 'parse3':
+                exps = c['runs3']
+                chain_now = [c['chain2'][0], c['chain'][1]]
+            else:
+                exps = (c['runs'] if kind == 'parse' else c['runs2'])[top - 1]
+                chain_now = c['chain'] if kind == 'parse' else c['chain2']
             for x, o in zip(exps, obs):
                 exp = x[3:7]
                 exp = [exp[0], unqualify(exp[1]), exp[2], exp[3]]
